@@ -152,7 +152,11 @@ Fixpoint pop_elems (pv : wstate -> wres value) (fuel2 : nat) (opener : token) (a
       else wbind (pop_token s2) (fun t s3 => WErr t s3))
   end.
 
-Fixpoint pop_value (fuel : nat) (s : wstate) : wres value :=
+(* maxValueDepth: popValue refuses to open an array nested deeper than this (it recurses once per
+   bracket; the bound keeps the recursion, hence the goroutine stack, bounded) *)
+Definition max_value_depth : N := 10000.
+
+Fixpoint pop_value (fuel : nat) (depth : N) (s : wstate) : wres value :=
   match fuel with
   | O => WFuel
   | S f =>
@@ -163,12 +167,13 @@ Fixpoint pop_value (fuel : nat) (s : wstate) : wres value :=
       wbind (pop_token s) (fun t s1 => WOk (VTok t (tstart t) (tend t)) s1)
     else if tt_eqb (next_type s) LBRACK then
       wbind (pop_token s) (fun opener s1 =>
-        if tt_eqb (next_type s1) RBRACK then
+        if N.leb max_value_depth depth then WErr opener s1
+        else if tt_eqb (next_type s1) RBRACK then
           wbind (pop_token s1) (fun _ s2 => WOk (VArr [] (tstart opener) (current_pos s2)) s2)
-        else pop_elems (pop_value f) (S (length (wrest s1))) opener [] s1)
+        else pop_elems (pop_value f (N.succ depth)) (S (length (wrest s1))) opener [] s1)
     else wbind (pop_token s) (fun t s1 => WErr t s1)
   end.
-Definition pop_value_top (s : wstate) : wres value := pop_value (S (length (wrest s))) s.
+Definition pop_value_top (s : wstate) : wres value := pop_value (S (length (wrest s))) 0%N s.
 
 (* popDescription *)
 Fixpoint pop_description_loop (fuel : nat) (acc : list token) (s : wstate) : wres descr :=
